@@ -63,6 +63,14 @@ func VerifC06_UpdateStrategy() {
 	named := rt.Bool("named-group")
 	res := verifChildRes(named)
 	parent := env.Thing("ns", "p", "puid")
+	parentKind := "Thing"
+	if rt.Bool("parent-cluster-scoped") {
+		// a cluster-scoped parent with namespaced children: every child request
+		// still has to go to the CHILD's namespace
+		rt.Cover("cluster-scoped-parent")
+		parentKind = "ClusterThing"
+		parent = env.Obj("ex.com/v1", parentKind, "", "p", "puid")
+	}
 	method := rt.OneOf(rt.String("method"), "", "OnDelete", "Recreate", "RollingRecreate", "InPlace", "RollingInPlace")
 	uid := rt.String("uid")
 	rt.Assume(uid != "")
@@ -163,7 +171,7 @@ func VerifC06_UpdateStrategy() {
 				ref := metav1.GetControllerOf(r.Body)
 				rt.Assert(ref != nil, "create/controller-reference-missing")
 				if ref != nil {
-					rt.Assert(ref.UID == "puid" && ref.Name == "p" && ref.Kind == "Thing" && ref.APIVersion == "ex.com/v1", "create/controller-reference-wrong")
+					rt.Assert(ref.UID == "puid" && ref.Name == "p" && ref.Kind == parentKind && ref.APIVersion == "ex.com/v1", "create/controller-reference-wrong")
 				}
 				rt.Assert(r.Body.GetAnnotations()["metacontroller.k8s.io/last-applied-configuration"] != "", "create/last-applied-missing")
 			}
